@@ -624,6 +624,9 @@ var raceTests = map[string]string{
 	"C01": "TestRace_Server", "C03": "TestRace_Server", "C06": "TestRace_Server", "C07": "TestRace_Server", "C08": "TestRace_Server", "C09": "TestRace_Server",
 	"C04": "TestRace_Client", "C05": "TestRace_Client", "C10": "TestRace_(Server|Client)",
 	"C18": "TestRace_Bridge", "C19": "TestRace_Bridge", "C20": "TestRace_Loop",
+	"C02": "TestRace_Codec", "C13": "TestRace_Codec", "C14": "TestRace_Codec",
+	"C11": "TestRace_Channel", "C12": "TestRace_Channel",
+	"C15": "TestRace_Handler", "C16": "TestRace_Handler", "C17": "TestRace_Handler",
 }
 
 // racePass runs the free-running -race workloads that discharge the explorer's
